@@ -62,6 +62,9 @@ def add_noise(e: ESpec):
         # non-string doc attributes must not disturb attribute collection
         if r & 8:
             e.extra.setdefault('variant_attrs', {}).setdefault(v.ident, []).append(['#[doc(hidden)]', '#[doc(alias = "noise")]'][k % 2])
+    # the enum's own visibility is copied to generated items and decides nothing else
+    if 'vis' not in e.extra:
+        e.extra['vis'] = ['pub', 'pub(crate)', 'pub(super)', 'pub(in crate)'][(h >> 44) % 4]
     if 'EnumString' not in consumes and (h >> 40) & 1:
         e.ci = True
     e.extra['noise'] = True
